@@ -68,8 +68,8 @@ type Res struct {
 	Max     Tok   // first non-empty token reaching the furthest end, in evaluation order
 	Reached []Ev  // actions in the order reached during evaluation, with the text of the capture
 	// most recently completed in evaluation order (the -noast contract)
-	N       int   // number of !{...} state changes executed
-	Revisit bool  // some (rule, offset) pair was entered twice (a memo hit in a packrat parser)
+	N       int  // number of !{...} state changes executed
+	Revisit bool // some (rule, offset) pair was entered twice (a memo hit in a packrat parser)
 	Steps   int
 	Aborted bool // step budget exhausted (ill-formed grammar)
 }
